@@ -12,6 +12,7 @@ LEVEL_TEXT = (
     'seeded exploration of (message stream x TCP segmentation x delivery timing x pass cost) through the real '
     'Reactor/Peer/Protocol/Connection on a virtual-time loop; the oracle is reference framing of the same bytes. '
     'Sampling, not proof: evidence counts distinct schedule signatures.'
+    " Some sessions answer the peer's OPEN (`local-as auto`)."
 )
 LEVEL_NOTE = 'trusts: the simulated TCP byte-stream model (exasim.net), CPython asyncio, the reference framer in refbgp'
 DESIGN_REF = 'DESIGN.md section 5, C06'
